@@ -117,7 +117,13 @@ impl Request {
             let message = boxed_url_components.err().unwrap().to_string();
             return Err(message)
         }
-        Ok(boxed_url_components.unwrap().query)
+        if boxed_url_components.unwrap().query.is_none() {
+            return Ok(None)
+        }
+        // the fields are decoded from the query of the target itself (see URL::percent_decode)
+        let (_, after_question_mark) = self.request_uri.split_once("?").unwrap_or((SYMBOL.empty_string, SYMBOL.empty_string));
+        let query = after_question_mark.split("#").next().unwrap_or(SYMBOL.empty_string);
+        Ok(Some(URL::parse_query(query)))
     }
 
     pub fn get_path(&self) -> Result<String, String> {
